@@ -164,10 +164,10 @@ Proof.
   - intros (from & bytes & ctl & obj & -> & Ha & [(se & dl & r & Ec & Eu & Eq & ->)|(resp & rt & dl & Ec & Eu & Eq & ->)]).
     + rewrite Ec. unfold sol_conf.
       rewrite (proj2 (to_treq_request_iff cfg from _ ctl fn_confirm obj) (conj eq_refl Ha)).
-      rewrite Eu, Eq, N.eqb_refl. reflexivity.
+      rewrite Eu, Eq, !N.eqb_refl. reflexivity.
     + rewrite Ec. unfold uconf_seq.
       rewrite (proj2 (to_treq_request_iff cfg from _ ctl fn_confirm obj) (conj eq_refl Ha)).
-      rewrite Eu, Eq, N.eqb_refl. reflexivity.
+      rewrite Eu, Eq, !N.eqb_refl. cbn [andb]. rewrite N.eqb_refl. reflexivity.
 Qed.
 
 (* THEOREM 1.  In the output of any step from any reachable state, under any answers of the database:
@@ -242,7 +242,9 @@ Proof. vm_compute. reflexivity. Qed.
    select, write or event-info call that follows in the step. *)
 Theorem abandoned_solicited_wait_resets : forall cfg s ev ans s' out,
   Reach cfg s -> ostep cfg s ev ans = (s', out) -> abandon_reset out.
-Proof. intros cfg s ev ans s' out HR. apply ostep_abandon_reset. apply reach_boundary_inv. exact HR. Qed.
+Proof.
+  intros cfg s ev ans s' out HR H. apply reach_boundary_inv in HR. exact (ostep_abandon_reset cfg s ev ans s' out HR H).
+Qed.
 
 Lemma abandon_reset_split : forall pre i post,
   abandon_reset (pre ++ OInfo i :: post) -> is_abandon i = true -> exists post', post = ODb DbReset :: post'.
@@ -317,7 +319,7 @@ Proof.
   destruct (one_response_outstanding _ _ _ _ _ _ _ _ Hw H Hc) as (e & He & Hi).
   destruct (release_only_on_awaited_confirm _ _ _ _ _ _ HR H) as [_ Hnc]. specialize (Hnc Hn).
   destruct e; try discriminate He; [|exact Hi].
-  exfalso. rewrite Forall_forall in Hnc. apply (Hnc (ODb DbClearWritten)); [|exact I]. apply in_or_app. left. exact Hi.
+  exfalso. rewrite Forall_forall in Hnc. apply (Hnc (ODb DbClearWritten)). apply in_or_app. left. exact Hi.
 Qed.
 
 (* the wait does not end silently *)
@@ -365,5 +367,6 @@ Example ex_one_response_outstanding :
   = [OInfo (IUnsolConfirmed 1); ODb DbClearWritten; ODb DbDeferredSelect; ODb DbWrite; ODb DbEvinfo;
      OTx 1 [228; 129; 128; 0; 2; 1; 40; 1; 0; 7; 0; 129]; OInfo (IEnterSolWait 4)].
 Proof.
-  split; [apply outstanding_step; vm_compute; reflexivity|]. vm_compute. repeat split.
+  split; [apply (outstanding_step (ex_cfg false) ex_sw (ex_req 4) [ev1]); [vm_compute; reflexivity|apply surjective_pairing]|].
+  vm_compute. repeat split.
 Qed.
